@@ -140,6 +140,10 @@ func (c13) Gen(r *Rand, idx int, tier string) interface{} {
 	p.CloseAfter = r.Intn(10)
 	p.NLogical = r.Intn(3)
 	p.Sends = 1 + r.Intn(4)
+	if (p.Kind == "close-send" || p.Kind == "close-recv" || p.Kind == "close-queue" || p.Kind == "cancel") && p.StallWindow < 0 && r.Pct(10) {
+		// a slow server: it pauses now and then (up to 200 ms) and reads on; senders and Close wait for it
+		p.Knobs.GenSlow(r, 1200, 200*time.Millisecond)
+	}
 	return p
 }
 func (c13) Decode(raw json.RawMessage) (interface{}, error) {
